@@ -1724,7 +1724,7 @@ SITE_TABLE = [
     ("tools/export.py", "vtk_export_structured", "_vtk_structured_helper(", "python-object", "dict"),
     ("tools/export.py", "to_vtk_unstructured", "_vtk_unstructured_helper(", "python-object", "dict"),
     ("tools/export.py", "vtk_export_unstructured", "_vtk_unstructured_helper(", "python-object", "dict"),
-    ("field/srf.py", "SRF.__call__", "field *= np.sqrt(scaled_var / self.model.sill)", "modelled",
+    ("field/srf.py", "SRF.__call__", "field *=", "modelled",   # matched on target and operator: the ownership fact is about `field`, not the factor
      "`field = np.reshape(self.generator(iso_pos), shape)`: the generator object's __call__ returns a new array "
      "(RandMeth / IncomprRandMeth / Fourier __call__ are in the dynamic sweep); Lean: pSrfCall `.augName V.f`"),
 ]
